@@ -333,3 +333,180 @@ Definition respond (dtext : bytes) (a : answer) : review :=
   | Success objs => RSuccess objs
   | Failed m => RFailure (msg_text dtext m)
   end.
+
+(* ------------------------------------------------------------------ part 4: hooks with `settings`
+
+   A conversion hook is an ordinary hook: its configuration may carry
+     settings: { executionMinInterval: <duration>, executionBurst: <int> }
+   and conversionEventHandler runs every step of the chain through the generic task handler
+   (op.taskHandler -> taskHandleHookRun), whose FIRST action is
+     err := taskHook.RateLimitWait(context.Background());  if err != nil { return Status "Repeat" }
+   The conversion task is NOT queued: nobody repeats it.  conversionEventHandler special-cases
+   only Status "Fail"; after any other status it reads the task prop "conversionResponse" - a task
+   whose hook was not executed has none ("hook task prop error").
+   So the answer depends on the limiter only through the ERROR of Wait; a Wait that merely
+   sleeps delays the step.  This part models the limiter (golang.org/x/time/rate v0.11.0, as
+   C18_Model does; local copy so that C15 does not move when C18 does), the hook-run task and
+   the handler loop over a set of hooks that own the rules, for a SEQUENCE of requests served
+   by one operator (the limiters are state that survives a request).
+
+   Time: [clock] lists what time.Now() reads at the 1st, 2nd, ... Wait call (ns; a missing reading
+   counts as 0).  Nothing is assumed about the clock (C15_Proofs: the trace and the answer do
+   not depend on it, nor on the limiter's tokens).  The sleep itself is the runtime's timer and is
+   not modelled: Wait(context.Background()) returns nil at timeToAct. *)
+
+(* htypes.Settings after CheckAndConvertSettings: (ExecutionMinInterval in ns, ExecutionBurst) *)
+Definition hsettings := (Z * Z)%type.
+
+Definition max_duration : Z := 9223372036854775807%Z.     (* math.MaxInt64 *)
+
+(* rate.Limiter.  limit: None = rate.Inf, Some I = one event every I ns (I > 0);
+   tokens are scaled by I (meaningless when the limit is Inf); last: None = zero time.Time *)
+Record bucket := mkBucket { b_limit : option Z; b_burst : Z; b_tokens : Z; b_last : option Z }.
+
+(* rate.Every *)
+Definition every (interval : Z) : option Z := if (interval <=? 0)%Z then None else Some interval.
+
+(* rate.NewLimiter(r, b): tokens = float64(b) *)
+Definition new_limiter (r : option Z) (b : Z) : bucket :=
+  mkBucket r b (b * match r with Some i => i | None => 1 end)%Z None.
+
+(* hook.go:330 CreateRateLimiter:
+     limit := rate.Inf; burst := 1
+     if cfg.Settings != nil {
+       if ExecutionMinInterval != 0 { limit = rate.Every(ExecutionMinInterval) }
+       if ExecutionBurst != 0       { burst = ExecutionBurst } }
+     return rate.NewLimiter(limit, burst) *)
+Definition create_rate_limiter (cfg : option hsettings) : bucket :=
+  match cfg with
+  | None => new_limiter None 1
+  | Some (interval, burst) =>
+    new_limiter (if (interval =? 0)%Z then None else every interval) (if (burst =? 0)%Z then 1%Z else burst)
+  end.
+
+(* Limiter.advance(t) for a finite limit with interval I:
+     last := lim.last; if t.Before(last) { last = t }
+     tokens := lim.tokens + tokensFromDuration(t.Sub(last)); if tokens > burst { tokens = burst } *)
+Definition advance (I : Z) (b : bucket) (t : Z) : Z :=
+  let elapsed := match b_last b with
+                 | None => max_duration
+                 | Some l => (t - Z.min l t)%Z
+                 end in
+  Z.min (b_tokens b + elapsed) (b_burst b * I).
+
+(* hook.go:87 RateLimitWait(context.Background()) = Limiter.Wait = wait(ctx, 1, time.Now(), ...),
+   the clock reading t:
+     if n > burst && limit != Inf { return error }                 (rate.go:259)
+     ctx.Done() never fires, ctx has no deadline: waitLimit = InfDuration
+     r := reserveN(t, 1, InfDuration)
+        limit == Inf: ok, timeToAct = t, state untouched
+        else tokens := advance(t) - 1; waitDuration := -tokens if negative;
+             ok := 1 <= burst && waitDuration <= InfDuration; state updated when ok
+     if !r.ok { return error };  sleep r.DelayFrom(t);  return nil
+   Result: the new state and Some timeToAct (nil was returned, at that instant) / None (error). *)
+Definition rate_limit_wait (b : bucket) (t : Z) : bucket * option Z :=
+  match b_limit b with
+  | None => (b, Some t)
+  | Some iv =>
+    if (1 <=? b_burst b)%Z then
+      let tokens := (advance iv b t - iv)%Z in
+      (mkBucket (b_limit b) (b_burst b) tokens (Some t), Some (t + Z.max 0 (- tokens))%Z)
+    else (b, None)
+  end.
+
+(* queue.TaskResult.Status of the hook-run task *)
+Inductive tstatus := TSuccess | TFail | TRepeat.
+
+(* operator.go taskHandleHookRun + handleRunHook for a Conversion task (AllowFailure is false
+   for conversion bindings): the limiter after the call, whether the hook was executed, the
+   status, and the task prop "conversionResponse" (set by handleRunHook only when the hook run
+   succeeded and its response file was not empty). *)
+Definition hook_run_task (b : bucket) (now : Z) (o : outcome)
+  : bucket * bool * tstatus * option (bytes * list obj) :=
+  match rate_limit_wait b now with
+  | (b', None) => (b', false, TRepeat, None)             (* the hook is NOT executed *)
+  | (b', Some _) =>
+    match o with
+    | OExitFail | OBadResponse => (b', true, TFail, None)
+    | ONoResponse => (b', true, TSuccess, None)
+    | OResp m objs => (b', true, TSuccess, Some (m, objs))
+    end
+  end.
+
+(* which hook registered a rule: [owners] runs parallel to the declared rules (hook numbers,
+   dense); an undeclared rule has no hook (never asked: chains consist of declared rules) *)
+Fixpoint owner_of (rules : list rule) (owners : list N) (r : rule) : N :=
+  match rules, owners with
+  | r' :: rs, h :: hs => if rule_eqb r' r then h else owner_of rs hs r
+  | _, _ => 0%N
+  end.
+
+(* the hooks' limiters, by hook number *)
+Definition lim_get (lims : list bucket) (h : N) : bucket := nth (N.to_nat h) lims (new_limiter None 1).
+Fixpoint lim_set_nat (lims : list bucket) (h : nat) (b : bucket) : list bucket :=
+  match lims, h with
+  | [], _ => []
+  | _ :: r, O => b :: r
+  | x :: r, S h' => x :: lim_set_nat r h' b
+  end.
+Definition lim_set (lims : list bucket) (h : N) (b : bucket) : list bucket := lim_set_nat lims (N.to_nat h) b.
+
+(* the operator's state that a conversion request reads and writes: limiters and the clock *)
+Definition lstate := (list bucket * list Z)%type.
+
+(* operator.go:348-397 once more, every step through the task handler.  outs = outcome of the
+   1st, 2nd, ... hook EXECUTION of this request. *)
+Fixpoint steps_lim (rules : list rule) (owners : list N) (st : lstate) (desired : version)
+         (chain : list rule) (outs : list outcome) (objs : list obj) : list invocation * stop * lstate :=
+  match chain with
+  | [] => ([], StNotDone, st)
+  | r :: rest =>
+    let h := owner_of rules owners r in
+    let '(b', ran, status, prop) := hook_run_task (lim_get (fst st) h) (hd 0%Z (snd st)) (hd OExitFail outs) in
+    let st' := (lim_set (fst st) h b', tl (snd st)) in
+    let inv := if ran then [(r, objs)] else [] in
+    match status with
+    | TFail => (inv, StFailed MHookFailed, st')                       (* res.Status == "Fail" *)
+    | TSuccess | TRepeat =>                                           (* any other status: the prop is read *)
+      match prop with
+      | None => (inv, StFailed MPropError, st')
+      | Some (c :: m, _) => (inv, StFailed (MHook (c :: m)), st')
+      | Some ([], objs') =>
+        if is_done desired objs' then (inv, StDone objs', st')
+        else let '(t, s, st'') := steps_lim rules owners st' desired rest (tl outs) objs' in (inv ++ t, s, st'')
+      end
+    end
+  end.
+
+(* conversionEventHandler + handleReviewRequest for one request, on the operator state [st] *)
+Definition serve_lim (rules : list rule) (owners : list N) (st : lstate) (dtext : bytes) (desired : version)
+           (chain : list rule) (outs : list outcome) (req : list obj) : list invocation * review * lstate :=
+  match extract req with
+  | [] => ([], handle_review (length req) (OpResponse (msg_text dtext MNotSuccessful) []), st)
+  | _ =>
+    let '(t, s, st') := steps_lim rules owners st desired chain outs req in
+    let r := match s with
+             | StFailed MPropError => OpError (msg_text dtext MPropError)
+             | StFailed m => OpResponse (msg_text dtext m) []
+             | StDone objs => OpResponse [] objs
+             | StNotDone => OpResponse (msg_text dtext MNotSuccessful) []
+             end in
+    (t, handle_review (length req) r, st')
+  end.
+
+(* one request of a session: desiredAPIVersion as spelt, desired version, the chain
+   FindConversionChain answered, the outcomes of the hook executions, the objects *)
+Definition squery := (bytes * version * list rule * list outcome * list obj)%type.
+
+(* the hooks' limiters when the operator has loaded the hooks (LoadConfig) *)
+Definition initial_limiters (hsets : list (option hsettings)) : list bucket := map create_rate_limiter hsets.
+
+(* a sequence of ConversionReviews served one after the other by one operator *)
+Fixpoint serve_session (rules : list rule) (owners : list N) (st : lstate) (qs : list squery)
+  : list (list invocation * review) :=
+  match qs with
+  | [] => []
+  | (dtext, desired, chain, outs, req) :: qs' =>
+    let '(t, a, st') := serve_lim rules owners st dtext desired chain outs req in
+    (t, a) :: serve_session rules owners st' qs'
+  end.
